@@ -602,6 +602,20 @@ AREAS = [
              strings=dict(string='bytes', char='byte', lit='%d%%N'),
              lists={'s': ('s', 'byte')}),
     ]),
+    # ---------------------------------------------------------------------------------------- round 2: C04 scheduler decision
+    dict(area='sched', requires=['Icv.Src.XlPrelude', 'Icv.Facts.Facts_enums'], items=[
+        # CheckerComponent::CheckThreadProc: is the due checkable checked ("check"), and is a next-check update announced when it is not?
+        dict(name='checkthread_wants_check', func='CheckerComponent::CheckThreadProc', file='lib/checker/checkercomponent.cpp', props=['C04'],
+             region=(r'bool\s+check\s*=\s*true\s*;', r'if\s*\(\s*!check\s*\)'), outputs=['check', 'notifyNextCheck'],
+             inputs=[('forced', 'bool'), ('reachable', 'bool'), ('has_host', 'bool'), ('is_svc', 'bool'), ('active_checks', 'bool'), ('host_checks', 'bool'),
+                     ('service_checks', 'bool'), ('has_period', 'bool'), ('period_inside', 'bool')], ret='void', rcoq='bool * bool', dummy='(false, false)',
+             locals={'forced': Bb('forced')}, aliases={'checkable': 'CK', 'icingaApp': 'APP'},
+             stmts={'tie(host,service)=GetHostService(CK)': {'host': 'HOST', 'service': 'SVC'}},
+             bind={'CK->IsReachable(DependencyCheckExecution)': Bb('reachable'), 'HOST': ('has_host', 'ptr'), 'SVC': ('is_svc', 'ptr'),
+                   'CK->GetEnableActiveChecks()': Bb('active_checks'), 'APP->GetEnableHostChecks()': Bb('host_checks'),
+                   'APP->GetEnableServiceChecks()': Bb('service_checks'), 'CK->GetCheckPeriod()': ('has_period', 'ptr'),
+                   'CK->GetCheckPeriod()->IsInside(Utility::GetTime())': Bb('period_inside')}),
+    ]),
     # ---------------------------------------------------------------------------------------- C18 (tracked, outside the subset today)
     dict(area='perm', requires=['Icv.Src.XlPrelude'], items=[
         # builds Expression objects with `new`, writes through an out-parameter: not translatable; listed so that the evidence
